@@ -743,9 +743,34 @@ where
     }
     cx.extra(&format!("{}_k", K::SHORT), json!(k));
     let info: Mutex<HashMap<String, (u64, (u64, u64))>> = Mutex::new(HashMap::new());
-    cx.next_group_share(tier.pick(5.0, 400.0));
+    cx.next_group_share(tier.pick(4.0, 400.0));
     cx.run_cases(&format!("{}-honest", K::SHORT), &cases, |c| {
         let mut out = CaseOut::batch();
+        if !tier.is_thorough() {
+            // quick: the honest run and the reference judgement only (thorough adds the instance
+            // edits and the lies about exposed values of vgad::explore_honest)
+            use vgad::Runnable;
+            let run = vgad::run_once(c, k, vec![], false);
+            let (s, e) = marks();
+            out.eval(&format!("honest:{}", run.outcome.name()), true);
+            let detail = json!({"case": c.0.key()});
+            match (&run.outcome, c.0.expect_sat()) {
+                (Outcome::Sat, true) => match c.r_judge(&run.ins, &run.outs) {
+                    Judgement::Holds => {
+                        info.lock().unwrap().insert(c.0.key(), (run.n_assign, (s, e)));
+                    }
+                    Judgement::Wrong(w) => out.viol(Viol::new(format!("{}:honest-result-wrong", c.0.op()), format!("honest circuit is satisfied but its exposed result contradicts the reference: {w}"), detail)),
+                },
+                (Outcome::Sat, false) => {
+                    if let Judgement::Wrong(w) = c.r_judge(&run.ins, &run.outs) {
+                        out.viol(Viol::new(format!("{}:out-of-domain-accepted", c.0.op()), format!("input outside the documented domain is accepted: {w}"), detail));
+                    }
+                }
+                (o, true) => out.viol(Viol::new(format!("{}:completeness:{}", c.0.op(), o.name()), format!("honest witness for an admissible input is not accepted - {o:?}"), detail)),
+                (_, false) => {}
+            }
+            return out;
+        }
         let rep = vgad::explore_honest(c, k, &mut out);
         let (s, e) = marks();
         if rep.outcome == Outcome::Sat && c.0.expect_sat() {
@@ -772,7 +797,7 @@ where
         }
     }
     let faults: Vec<_> = vgad::default_faults(seed).into_iter().filter(|(n, _)| tier.is_thorough() || ["+1", "zero"].contains(n)).collect();
-    cx.next_group_share(tier.pick(5.0, 400.0));
+    cx.next_group_share(tier.pick(1.5, 400.0));
     cx.run_cases(&format!("{}-faults", K::SHORT), &fcases, |(c, idxs)| {
         let mut out = CaseOut::batch();
         vgad::explore_faults(c, k, idxs, &faults, &mut out);
@@ -1384,6 +1409,10 @@ fn main() {
             out
         });
     }
+    // ---- Curve25519 fields (from-scratch chips, see c25.rs): the same registry and references;
+    // before the long 1-deviation sweep of the ZkStdLib fields, which takes whatever time is left
+    c25_group::<midnight_curves::curve25519::Fp>(&mut cx, tier, seed);
+    c25_group::<midnight_curves::curve25519::Scalar>(&mut cx, tier, seed);
     cpu_marks.push(("faults", cpu_s()));
     cx.run_cases("faults", &fcases, |(c, idxs, faults)| {
         let mut out = CaseOut::batch();
@@ -1431,9 +1460,6 @@ fn main() {
     if tier == Tier::Quick {
         cx.note("quick: secp256k1 base field with the full operation list; secp256k1 scalar field and BLS12-381 base field with a reduced list; BigUint widths <= 193 bits");
     }
-    // ---- Curve25519 fields (from-scratch chips, see c25.rs): the same registry and references
-    c25_group::<midnight_curves::curve25519::Fp>(&mut cx, tier, seed);
-    c25_group::<midnight_curves::curve25519::Scalar>(&mut cx, tier, seed);
     cx.note("Curve25519 field chips: honest runs of the whole registry and a 1-deviation sweep with a stride, through FromScratch circuits (not the +m re-representation, pair and laws phases). Not covered: assign_as_public_input and BigUintGadget::constrain_as_public_input (they write the instance column themselves, outside the exposure log of the engine)");
     if only.is_none() && cx.remaining_s() > 0.0 {
         let sat = cx.class_count("honest:honest:sat");
